@@ -11,6 +11,7 @@
 import TypedpyModel.Sem.Fast
 import TypedpyModel.Spec.WfDecl
 import TypedpyModel.Spec.Conforms
+import TypedpyModel.Spec.SerFrag
 namespace Typedpy
 
 def isAnyOfD : FieldDecl → Bool
@@ -233,5 +234,124 @@ def fastDefects (Mp : MapEnv) (NF : List String) (compact sn : Bool) (cls : Fiel
                  && !fields.any (fun p => (getAttr defaults attrs p.1).isNone)) then ["fast:compact-conditions"] else [])
       ++ (if cascades Mp [] cls then ["fast:mapper-cascade"] else [])).eraseDups
   | _ => ["not-a-class"]
+
+
+/-! ### instances in canonical attribute order -/
+
+mutual
+/-- the same value with the attributes of every (nested) instance listed in field order: the
+    order of `__dict__` is not part of the model's claim -/
+def canonV : FieldDecl → PyVal → PyVal
+  | .seqOf _ item _, v =>
+    (match v with
+      | .list xs => .list (xs.map (canonV item))
+      | .deque xs => .deque (xs.map (canonV item))
+      | w => w)
+  | .setOf _ item _, v => (match v with | .set fr xs => .set fr (xs.map (canonV item)) | w => w)
+  | .tuplePos items _, v => (match v with | .tuple xs => .tuple (canonZip items xs) | w => w)
+  | .mapOf kf vf _, v =>
+    (match v with | .dict kvs => .dict (kvs.map fun kv => (canonV kf kv.1, canonV vf kv.2)) | w => w)
+  | .struct _ fields _, v => (match v with | .inst cn attrs => .inst cn (canonFields attrs fields) | w => w)
+  | .anyOf fs, v => canonAny fs v
+  | .number _, v => v
+  | .integer _, v => v
+  | .float _, v => v
+  | .string _ _ _, v => v
+  | .boolean, v => v
+  | .noneF, v => v
+  | .enumLit _, v => v
+  | .enumCls _ _, v => v
+  | .tupleOf _ _, v => v
+  | .seqPos _ _ _ _, v => v
+  | .seqAny _ _, v => v
+  | .setAny _ _, v => v
+  | .mapAny _, v => v
+  | .oneOf _, v => v
+  | .allOf _, v => v
+  | .notF _, v => v
+  | .anything, v => v
+termination_by structural f _ => f
+def canonZip : List FieldDecl → List PyVal → List PyVal
+  | [], xs => xs
+  | _ :: _, [] => []
+  | f :: fs, x :: xs => canonV f x :: canonZip fs xs
+termination_by structural fs _ => fs
+/-- through the option that is not `NoneField` (an Optional has exactly one) -/
+def canonAny : List FieldDecl → PyVal → PyVal
+  | [], v => v
+  | f :: fs, v => if isNoneF f then canonAny fs v else canonV f v
+termination_by structural fs _ => fs
+def canonFields (attrs : List (String × PyVal)) : List (String × FieldDecl) → List (String × PyVal)
+  | [] => []
+  | (n, f) :: rest =>
+    (match lookup n attrs with
+      | some v => [(n, canonV f v)]
+      | none => []) ++ canonFields attrs rest
+termination_by structural fs => fs
+end
+
+
+/-! ### valid instances, as far as serialization looks at them -/
+
+mutual
+/-- the stored value `v` has the shape field `f` stores (JSON scalars for the scalar fields, the
+    right container, nested instances of the declared class holding only declared attributes, an
+    absent attribute only where the field has no default) -/
+def fwf (O : Oracles) : FieldDecl → PyVal → Bool
+  | .number _, v => numJson v
+  | .integer _, v => (match v with | .int _ => true | .bool _ => true | _ => false)
+  | .float _, v => (match v with | .float _ => true | _ => false)
+  | .string _ _ _, v => (match v with | .str _ => true | _ => false)
+  | .boolean, v => (match v with | .bool _ => true | _ => false)
+  | .noneF, v => v.isNone
+  | .enumLit _, _ => true
+  | .enumCls _ _, v => (match v with | .enumv _ _ => true | _ => false)
+  | .seqOf k item _, v => (match seqElems k v with | some xs => xs.all (fwf O item) | none => false)
+  | .setOf _ item _, v => (match v with | .set _ xs => xs.all (fwf O item) | _ => false)
+  | .tuplePos items _, v =>
+    (match v with | .tuple xs => xs.length == items.length && fwfZip O items xs | _ => false)
+  | .mapOf kf vf _, v =>
+    (match v with | .dict kvs => kvs.all (fun kv => fwf O kf kv.1 && fwf O vf kv.2) | _ => false)
+  | .struct c fields defaults, v =>
+    (match v with
+      | .inst cn attrs =>
+        cn == c.name && attrs.all (fun a => (fields.map (·.1)).contains a.1)
+          && fwfFields O defaults attrs fields
+      | _ => false)
+  | .anyOf fs, v => !v.isNone && fwfAny O fs v
+  | .tupleOf _ _, _ => false
+  | .seqPos _ _ _ _, _ => false
+  | .seqAny _ _, _ => false
+  | .setAny _ _, _ => false
+  | .mapAny _, _ => false
+  | .oneOf _, _ => false
+  | .allOf _, _ => false
+  | .notF _, _ => false
+  | .anything, _ => false
+termination_by structural f _ => f
+def fwfZip (O : Oracles) : List FieldDecl → List PyVal → Bool
+  | [], _ => true
+  | _ :: _, [] => true
+  | f :: fs, x :: xs => fwf O f x && fwfZip O fs xs
+termination_by structural fs _ => fs
+/-- the value fits an option that is not `NoneField`, also as `serialize_multifield_wrapper`
+    sees it (the option's `_validate` passes and its serialization succeeds) -/
+def fwfAny (O : Oracles) : List FieldDecl → PyVal → Bool
+  | [], _ => false
+  | f :: fs, v =>
+    (!isNoneF f && fwf O f v && shallowOk O f (canonV f v) && !(canonV f v).isNone
+      && (match ser O f (canonV f v) with | .ok _ => true | .error _ => false))
+    || fwfAny O fs v
+termination_by structural fs _ => fs
+def fwfFields (O : Oracles) (defaults attrs : List (String × PyVal)) : List (String × FieldDecl) → Bool
+  | [] => true
+  | (n, f) :: rest =>
+    (match lookup n attrs with
+      | some v => v.isNone || fwf O f v
+      | none => (lookup n defaults).all (·.isNone))
+    && fwfFields O defaults attrs rest
+termination_by structural fs => fs
+end
+
 
 end Typedpy
